@@ -95,8 +95,10 @@ def loop_tuple(tree, fname):
     return list(vals)
 
 
-def load():
-    """-> (module, dict of tables) from common.REPO"""
+def load(strict=True):
+    """-> (module, dict of tables) from common.REPO.  strict=False (used by the case generators after the translator
+    already reported its failure): fall back to the last understood shape where the source is no longer understood,
+    so that the search for a failing input can still run."""
     C.use_repo()
     scratch_env()
     import ofxtools.scripts.ofxget as G
@@ -123,9 +125,17 @@ def load():
     t["null_args"] = list(G.NULL_ARGS)
     for v in t["null_args"]:
         pyval(v)
-    t["ofxhome_keys"] = ofxhome_keys(tree)
-    t["stmt_types"] = loop_tuple(tree, "request_stmt")
-    t["stmtend_types"] = loop_tuple(tree, "request_stmtend")
+    fallback = {"ofxhome_keys": [(k, i) for i, k in enumerate(OH_FIELDS)],
+                "stmt_types": ["checking", "savings", "moneymrkt", "creditline"],
+                "stmtend_types": ["checking", "savings", "moneymrkt", "creditline"]}
+    for key, fn in (("ofxhome_keys", lambda: ofxhome_keys(tree)), ("stmt_types", lambda: loop_tuple(tree, "request_stmt")),
+                    ("stmtend_types", lambda: loop_tuple(tree, "request_stmtend"))):
+        try:
+            t[key] = fn()
+        except ValueError:
+            if strict:
+                raise
+            t[key] = fallback[key]
     t["isspace"] = [c for c in range(sys.maxunicode + 1) if chr(c).isspace()]
     bs = configparser.ConfigParser.BOOLEAN_STATES
     if not all(isinstance(k, str) and isinstance(v, bool) and k == k.lower() and k.isascii() for k, v in bs.items()):
